@@ -70,7 +70,7 @@ func (c *Ctx) step(fr *Frame, st *State, reach T, instr ssa.Instruction) {
 		ks := keySortOfMap(mt)
 		dk := mapDomKey(mt)
 		ds := arr(sInt, arr(ks, sBool))
-		c.heapSet(st, dk, ds, sto(c.heapGet(st, dk, ds), r, constArray(arr(ks, sBool), "false")))
+		c.heapSet(st, dk, ds, sto(c.heapGet(st, dk, ds), r, c.constArr(arr(ks, sBool), "false")))
 		if c.msumApplies(mt) {
 			c.sc.assume(eq(c.msumOf(st, mt, r), "0"))
 		}
@@ -89,7 +89,7 @@ func (c *Ctx) step(fr *Frame, st *State, reach T, instr ssa.Instruction) {
 		k := iterKey{fr.id, t}
 		srt := arr(keySortOfMap(mt), sBool)
 		c.iterSort[k] = srt
-		st.iters[k] = constArray(srt, "false")
+		st.iters[k] = c.constArr(srt, "false")
 		fr.env[t] = Val{Typ: t.Type(), L: []T{x.one()}}
 	case *ssa.Next:
 		c.doNext(fr, st, reach, t)
@@ -161,7 +161,7 @@ func (c *Ctx) zeroRegion(st *State, el types.Type, r T) {
 		return // struct elements are zero-initialised lazily (see loadElem of fresh regions)
 	}
 	for i, l := range leavesOf(el) {
-		c.setElemArray(st, el, i, r, constArray(arr(sInt, l.Sort), zeroLeaf(l)))
+		c.setElemArray(st, el, i, r, c.constArr(arr(sInt, l.Sort), zeroLeaf(l)))
 	}
 }
 
@@ -543,7 +543,7 @@ func (c *Ctx) nilMapEmpty(st *State, mt *types.Map) {
 	ks := keySortOfMap(mt)
 	k := mapDomKey(mt)
 	h := c.heapInit(k, arr(sInt, arr(ks, sBool)))
-	c.onceFact("nilmap:"+k, eq(sel(h, "0"), constArray(arr(ks, sBool), "false")))
+	c.onceFact("nilmap:"+k, eq(sel(h, "0"), c.constArr(arr(ks, sBool), "false")))
 }
 
 func (c *Ctx) doSlice(fr *Frame, st *State, reach T, t *ssa.Slice) {
@@ -621,7 +621,7 @@ func (c *Ctx) doNext(fr *Frame, st *State, reach T, t *ssa.Next) {
 		s0 := app("msum", vis, v0)
 		s1 := app("msum", sto(vis, key, "true"), v0)
 		c.sc.assume(and(eq(s1, add(s0, ite(sel(vis, key), "0", app("slen", sel(v0, key))))), ge(s0, "0")))
-		c.sc.assume(eq(app("msum", constArray(arr(sStr, sBool), "false"), v0), "0"))
+		c.sc.assume(eq(app("msum", c.constArr(arr(sStr, sBool), "false"), v0), "0"))
 		qs := fmt.Sprintf("q.k.%d", c.nextID())
 		// exhausted iterator that visited only members: visited = dom
 		c.sc.assume(imp(not(ok), imp(fmt.Sprintf("(forall ((%s %s)) (=> (select %s %s) (select %s %s)))", qs, ks, vis, qs, dom, qs), eq(s0, app("msum", dom, v0)))))
